@@ -238,6 +238,32 @@ func checkC01(p *Program, r *Report) {
 		}
 	}
 	r.Note("recover_handlers", nHandlers)
+	// ... and the operation it is there for runs under it: in a function that installs a handler, every call that runs foreign code
+	// (reflect's Call / CallSlice) or can panic by contract (Close, Send, MapOf, SliceOf ...) comes after the installation
+	nGuarded := 0
+	for _, fn := range m.fns {
+		if len(allDefers[fn]) == 0 {
+			continue
+		}
+		k := 0
+		for _, b := range fn.Blocks {
+			for _, in := range b.Instrs {
+				c, ok := in.(*ssa.Call)
+				if !ok {
+					continue
+				}
+				rm := reflectMethod(c)
+				if rm != "Call" && rm != "CallSlice" && rm != "Close" && rm != "Send" {
+					continue
+				}
+				k++
+				nGuarded++
+				r.Check(prot[fn][in], "C01.R2", fmt.Sprintf("%s|%s #%d runs under the handler installed here", funcName(fn), rm, k), p.Pos(c.Pos()), "made after the deferred recover handler of this function was installed",
+					"reflect.Value."+rm+" is made before (or without) the recover handler this function installs: its panic is no longer turned into an error at this statement, it unwinds to the invocation's boundary, past every enclosing try (the catch block does not run and the command reports a failure for a script that handled its error)")
+			}
+		}
+	}
+	r.Note("calls_under_local_handlers", nGuarded)
 	if esp := p.SSAPkg("env"); esp != nil {
 		locksNotCopied(p, r, append(SrcFuncs(esp), m.fns...), "C01.R7")
 	}
